@@ -141,6 +141,19 @@ def directed(default_params):
             steps.append({"op": "rename.minimize", "slot": 0, "pick": 1})
             steps.append({"op": "rename.sc", "slot": 0})
         out.append((f"minimize-repeats-{len(tg)}t", dict(P, spin_mode=True), steps))
+    # every construction route of the Expr container for the same renamings
+    steps = [_expr_step(), {"op": "build", "slot": 1, "targets": ["i", "a"], "terms": [
+        {"pref": [1, 1], "atoms": [["ast", "V", ["i", "j"], ["a", "b"], 0],
+                                   ["amp", "t1", ["b", "c"], ["j", "k"], 0],
+                                   ["amp", "X", ["c"], ["k"], 0]]}]}]
+    for route in range(7):
+        for slot in (0, 1):
+            steps += [{"op": "rename.sc", "slot": slot, "route": route},
+                      {"op": "rename.gen", "slot": slot, "route": route},
+                      {"op": "rename.copy", "slot": slot, "route": route, "how": "sc"},
+                      {"op": "rename.permute", "slot": slot, "route": route,
+                       "perms": [[0, 1], [1, 2]]}]
+    out.append(("construction-routes", P, steps))
     # D5 expand_itmd with targets equal to the definition's own contracted names
     steps = []
     for pick in range(0, 22):
